@@ -95,7 +95,8 @@ static void build_ops(void) {
     for (int v = 0; v < 4; ++v) addop(F_WRITE_WHOLE_BUF, v, 0);
     for (int a = 0; a <= ARG_NULL0; ++a) addop(F_WRITE_WHOLE_CUR, a, 0);
     for (int v = 0; v < 5; ++v) addop(F_WRITE_WHOLE_STR, v, 0);
-    for (int v = 0; v < 6; ++v) addop(F_WRITE_TO_CAP, v, 0);
+    for (int v = 0; v < 8; ++v) addop(F_WRITE_TO_CAP, v, 0); /* 6, 7: fake-huge cursors (added after a seeded change that copied
+                                                              * before the refused cursor advance) */
     for (int a = 0; a < LA_N; ++a) addop(F_ADVANCE, a, 0);
     for (int v = 0; v < 3; ++v) addop(F_RESET, v, 0);
     for (int v = 0; v < 5; ++v) addop(F_READ_FILL, v, 0);
@@ -393,7 +394,7 @@ static bool m_enabled(int op) {
         }
         case F_WRITE_WHOLE_BUF: return d->a < 2 || (d->a == 2 ? fit > 1 : fit + 1 > 1);
         case F_WRITE_WHOLE_STR: return d->a < 2 || d->a == 4 || (d->a == 2 ? fit > 1 : fit + 1 > 1);
-        case F_WRITE_TO_CAP: return d->a <= 2 || d->a == 5 || (d->a == 3 ? fit > 2 : fit + 1 > 2);
+        case F_WRITE_TO_CAP: return d->a <= 2 || d->a >= 5 || (d->a == 3 ? fit > 2 : fit + 1 > 2);
         case F_READ_FILL: return d->a == 0 ? R.cap > 1 : d->a == 1 ? R.cap >= 1 : true;
         case F_EQ: return d->a == 1 ? R.len >= 1 : true;
         default: return true;
@@ -728,6 +729,18 @@ static void m_apply(int op) {
             break;
         }
         case F_WRITE_TO_CAP: {
+            if (d->a >= 6) { /* a cursor whose length the cursor API refuses (> SIZE_MAX/2) over one valid byte: nothing may be copied */
+                size_t hl = d->a == 6 ? SIZE_MAX / 2 + 1 : SIZE_MAX;
+                struct aws_byte_cursor c = {.len = hl, .ptr = tmp_block(PAT, 1)}, c0 = c;
+                LIB_BEGIN(0);
+                struct aws_byte_cursor ret = aws_byte_buf_write_to_capacity(&X, &c);
+                LIB_END();
+                VC("refused_huge_lengths");
+                ESX_CHECK(ret.len == 0, "write-to-capacity-result", "%s: a cursor of %zu bytes cannot be advanced, yet %zu bytes are reported written", nm, hl, ret.len);
+                ESX_CHECK(memcmp(&c, &c0, sizeof(c)) == 0, "write-to-capacity-cursor", "%s reported nothing written but altered the cursor", nm);
+                expect_unchanged(nm);
+                break;
+            }
             size_t n = tocap_len(d->a), w = n < fit ? n : fit;
             struct aws_byte_cursor c = {.len = n, .ptr = d->a == 5 ? NULL : tmp_block(PAT, n)}, c0 = c;
             LIB_BEGIN(0);
@@ -907,7 +920,7 @@ static void m_opname(int op, char *buf, size_t cap) {
         }
         case F_WRITE_WHOLE_CUR: carg_name(d->a, a, sizeof(a)); snprintf(buf, cap, "write_from_whole_cursor(%s)", a); break;
         case F_WRITE_TO_CAP: {
-            static const char *v[] = {"len=0", "len=1", "len=2", "len=exact-fit", "len=exact-fit+1", "{NULL,0}"};
+            static const char *v[] = {"len=0", "len=1", "len=2", "len=exact-fit", "len=exact-fit+1", "{NULL,0}", "fake-huge len=SIZE_MAX/2+1", "fake-huge len=SIZE_MAX"};
             snprintf(buf, cap, "write_to_capacity(cursor %s)", v[d->a]);
             break;
         }
